@@ -23,11 +23,33 @@ DRV = os.path.join(VERIF, "harness", "cpp", "session_drv.cc")
 VARIANTS = ["compact", "spaced", "comments", "lines", "forward", "sepmix", "blankmix"]
 
 
-def render(inst, variant, salt=0):
+def header_text(h):
+    if not h:
+        return p21.HEADER % "RT"
+    return ("HEADER;\nFILE_DESCRIPTION((%s),%s);\nFILE_NAME(%s,'2020-01-01T00:00:00',(%s),(%s),%s,%s,%s);\nFILE_SCHEMA(('RT'));\nENDSEC;\n"
+            % (",".join(h["desc"]), h["level"], h["name"], ",".join(h["authors"]), ",".join(h["orgs"]), h["pre"], h["sys"], h["auth"]))
+
+
+def same_header(a, b):
+    """header records equal apart from FILE_NAME's time stamp (second parameter)"""
+    if [k for k, _ in a] != [k for k, _ in b]:
+        return False
+    for (k, pa), (_, pb) in zip(a, b):
+        if len(pa) != len(pb):
+            return False
+        for i, (x, y) in enumerate(zip(pa, pb)):
+            if k == "FILE_NAME" and i == 1:
+                continue
+            if not same_value(x, y):
+                return False
+    return True
+
+
+def render(inst, variant, salt=0, header=None):
     if variant in ("sepmix", "blankmix"):
         # any separator of spec/P21Sep.tla between any two tokens of the data section
         sp = seps.Spacer("comments" if variant == "sepmix" else "plain", salt)
-        head, data = render(inst, "compact").split("DATA;\n")
+        head, data = render(inst, "compact", 0, header).split("DATA;\n")
         body, tail = data.split("ENDSEC;")
         out = []
         for _, t in p21.tokenize(body):
@@ -48,7 +70,7 @@ def render(inst, variant, salt=0):
     lines = ["#1%sTGT(1);" % eq, "#2%s%s;" % (eq, body)]
     if variant == "forward":
         lines.reverse()
-    return "ISO-10303-21;\n" + p21.HEADER % "RT" + "DATA;\n" + "\n".join(lines) + "\nENDSEC;\nEND-ISO-10303-21;\n"
+    return "ISO-10303-21;\n" + header_text(header) + "DATA;\n" + "\n".join(lines) + "\nENDSEC;\nEND-ISO-10303-21;\n"
 
 
 def same_value(a, b):
@@ -103,11 +125,11 @@ def run(ctx):
             tag = "%d" % k
             k += 1
             f = os.path.join(wd, "i%s.p21" % tag)
-            open(f, "w", newline="").write(render(c["inst"], v, k - 1))
+            open(f, "w", newline="").write(render(c["inst"], v, k - 1, c.get("header")))
             o1, o2 = os.path.join(wd, "o%s_1.p21" % tag), os.path.join(wd, "o%s_2.p21" % tag)
             scripts.append((tag, ["new 0", "read " + f, "write " + o1, "new 0", "read " + o1, "write " + o2]))
             meta[tag] = (c, v, f, o1, o2)
-            files[tag] = render(c["inst"], v, k - 1)
+            files[tag] = render(c["inst"], v, k - 1, c.get("header"))
     res = {}
     B = 60
     with cf.ThreadPoolExecutor(max_workers=10) as ex:
@@ -117,7 +139,7 @@ def run(ctx):
     lines, tags = [], []
     for tag, (c, v, f, o1, o2) in meta.items():
         r = res.get(tag, [])
-        ev = {"e": "RoundTrip", "tag": tag, "sev": -9, "sameIds": False, "sameKeywords": False, "valuesSame": [False], "secondIdentical": False, "why": ""}
+        ev = {"e": "RoundTrip", "tag": tag, "sev": -9, "sameIds": False, "sameKeywords": False, "valuesSame": [False], "sameHeader": False, "secondIdentical": False, "why": ""}
         rd = r[1] if len(r) > 1 else {}
         if rd.get("cmd") == "read":
             ev["sev"] = rd["esev"]
@@ -125,6 +147,9 @@ def run(ctx):
                 src = p21.parse(open(f).read())
                 out = p21.parse(open(o1, errors="replace").read())
                 ev["sameIds"] = [x["id"] for x in src["data"]] == [x["id"] for x in out["data"]]
+                ev["sameHeader"] = same_header(src["header"], out["header"])
+                if not ev["sameHeader"]:
+                    ev["why"] = "header %s -> %s" % (src["header"], out["header"])
                 si = [x for x in src["data"] if x["id"] == 2][0]
                 oi = [x for x in out["data"] if x["id"] == 2]
                 if oi:
@@ -141,7 +166,7 @@ def run(ctx):
                         if len(ops) != len(ps):
                             vs.append(False)
                     ev["valuesSame"] = vs or [True]
-                    ev["why"] = "; ".join("%s -> %s" % (p21.render_value(a), p21.render_value(om.get(kw, [("null",)] * 99)[j]) if j < len(om.get(kw, [])) else "missing")
+                    ev["why"] = ev["why"] if all(vs) else "; ".join("%s -> %s" % (p21.render_value(a), p21.render_value(om.get(kw, [("null",)] * 99)[j]) if j < len(om.get(kw, [])) else "missing")
                                           for kw, ps in si["parts"] for j, a in enumerate(ps)
                                           if not (j < len(om.get(kw, [])) and same_value(a, om[kw][j])))[:300]
                 t1, t2 = strip_ts(open(o1, errors="replace").read()), strip_ts(open(o2, errors="replace").read()) if os.path.exists(o2) else None
@@ -162,7 +187,7 @@ def run(ctx):
         ev = rep["ev"]
         c, v, f, o1, o2 = meta[ev["tag"]]
         clause = "read-error" if ev["sev"] < 2 else "ids" if not ev["sameIds"] else "keywords" if not ev["sameKeywords"] else \
-            "values" if not all(ev["valuesSame"]) else "second-round-trip"
+            "values" if not all(ev["valuesSame"]) else "header" if not ev["sameHeader"] else "second-round-trip"
         inst = render(c["inst"], "compact").split("\n")[-4]
         key = "dev:" + c["dev"] if c.get("dev") else "%s|%s|%s|%s" % (clause, "+".join(c["inst"]["kw"]), v if clause in ("read-error",) else "-", ev["why"][:80])
         ctx.violation(key,
@@ -176,4 +201,4 @@ def run(ctx):
            "rule": "entity shapes x rounds walking every literal-form pool x token spellings; each file distinct"}
     return {"level": "model_checking", "coverage": cov, "assumptions": [
         "one model schema (schemas/rt.exp); the byte-level fidelity of individual literals is C09's exhaustive enumeration",
-        "header round trip is checked through the byte comparison of the second round trip only"]}
+        "the header is compared record by record apart from FILE_NAME.time_stamp"]}
